@@ -146,6 +146,18 @@ v('c13-overwrite-stats', 'break', ['C13'], O,
   ("        if 'stats' in self.meta:\n            self.meta['stats'].update(stats)\n        else:\n            self.meta['stats'] = stats\n\n    def _setup_state(self):\n        \"\"\"Set up subsections and subsection-related state.\"\"\"\n        self.meta_section = DiffXMetaSection(parent_section=self)\n        self.diff_section",
    "        self.meta['stats'] = stats\n\n    def _setup_state(self):\n        \"\"\"Set up subsections and subsection-related state.\"\"\"\n        self.meta_section = DiffXMetaSection(parent_section=self)\n        self.diff_section"))
 v('c13-key-typo', 'break', ['C13'], O, ("file_stats.get('insertions', 0)", "file_stats.get('insertion', 0)"))
+# ---- C03-R7 line accounting / C17-R8 constant window
+v('c03-linenum-count-newlines', 'break', ['C03'], R, ('        self._linenum += len(lines)', '        self._linenum += content.count(newline)'))
+v('c03-linenum-header-in-loop', 'break', ['C03'], R,
+  ('            if header.strip():\n                break\n', '            self._linenum += 1\n\n            if header.strip():\n                break\n'),
+  ('        self._linenum += 1\n\n        return {', '        return {'))
+v('c03-line-after-increment', 'break', ['C03'], R, ("            'line': linenum,", "            'line': self._linenum,"))
+v('c03-benign-linenum-local-count', 'benign', ['C03', 'C08', 'C07'], R,
+  ('        self._linenum += len(lines)', '        num_lines = len(lines)\n        self._linenum = self._linenum + num_lines'))
+v('c17-sniff-window', 'break', ['C17', 'C03'], T, ('    i = text.find(unix_newline)\n', '    i = text.find(unix_newline, 0, 2048)\n'))
+# (C03-R4 declines this spelling of the first-line test with ANALYSIS-ERROR, exit 2: an idiom it does not evaluate - never a verdict)
+v('c17-benign-computed-slice', 'benign', ['C17'], T,
+  ('text[:i + len(unix_newline)].endswith(dos_newline)', 'text[max(0, i + len(unix_newline) - len(dos_newline)):i + len(unix_newline)] == dos_newline'))
 # ---- C17 / C07 / C12 / C03 / C08 / C01 / C05 / C06
 v('c17-seek-off-by-one', 'break', ['C17', 'C07'], R, ('fp.seek(i + 1 - len(chunk), os.SEEK_CUR)', 'fp.seek(i - len(chunk), os.SEEK_CUR)'))
 v('c17-chunk-slice', 'break', ['C17'], R, ('s.write(chunk[:i + 1])', 's.write(chunk[:min(i + 1, chunk_size - 1)])'))
